@@ -10,7 +10,23 @@ import sys
 from common import *  # noqa
 
 PID = 'C16'
-T_CALL = 2.0
+T_CALL = 3.0
+import multiprocessing as _mp
+_CONFIRMED = _mp.Value('i', 0)     # confirmed (twice timed-out) calls of this run, shared with the forked pool workers
+GIVE_UP_AFTER = 4
+
+
+def wcall(f, *a, **k):
+    """watchdog call whose timeout is a verdict: a timeout is re-tried once with 10x the budget (common.call retry=10) so that
+    a single wall-clock stall of a loaded machine cannot become a break; once GIVE_UP_AFTER calls have timed out twice the
+    verdict is settled and the remaining calls of the run are not started (keeps a hanging tree from costing 33 s per call)."""
+    if _CONFIRMED.value >= GIVE_UP_AFTER:
+        return ('timeout', None)
+    r = call(f, *a, t=T_CALL, retry=10, **k)
+    if r[0] == 'timeout':
+        with _CONFIRMED.get_lock():
+            _CONFIRMED.value += 1
+    return r
 
 
 # ------------------------------------------------------------------ oracle: union-find over the nonzero off-diagonal cells
@@ -56,8 +72,8 @@ def run_job(job):
     assert all(abs(x * scale - round(x * scale)) == 0 for x in flat(A))
     sym = all(A[i][j] == A[j][i] for i in range(n) for j in range(n))
     A0 = Af.copy()
-    r = call(bct.get_components, Af, t=T_CALL)
-    r2 = call(bct.number_of_components, Af.copy(), t=T_CALL) if r[0] != 'timeout' else r
+    r = wcall(bct.get_components, Af)
+    r2 = wcall(bct.number_of_components, Af.copy()) if r[0] != 'timeout' else r
     out['evals'] += 1
     st(r[0])
     if r[0] == 'timeout' or r2[0] == 'timeout':
@@ -115,7 +131,7 @@ def run_job(job):
         for name, f, pick in (('distance_bin', bct.distance_bin, lambda o: o),
                               ('breadthdist', bct.breadthdist, lambda o: o[1]),
                               ('reachdist', bct.reachdist, lambda o: o[1])):
-            rd = call(f, B.copy(), t=T_CALL * 2)
+            rd = wcall(f, B.copy())
             if rd[0] == 'timeout':
                 out['timeouts'].append(name); continue
             if rd[0] == 'exc':
@@ -287,7 +303,7 @@ def main():
             ntimeouts += 1
             ck.count('timeouts')
             if ntimeouts <= 3:   # the Comp model and the three Dist models (C03: distBin_total, breadthdist_total) always return
-                ck.corr_break('bct.%s hit the watchdog although its Lean model terminates' % t, {'job': job})
+                ck.corr_break('bct.%s timed out twice (3 s, then 30 s) although its Lean model terminates' % t, {'job': job})
         for ln, ex, fn in r['lines']:
             lines.append(ln); exps.append(ex); funcs.append(fn)
     if ok:
